@@ -525,8 +525,23 @@ def violations_of(rl):
     return out
 
 
+def _attr_state(t):
+    """every instance attribute of a token other than its text (caches written during analysis are state too)"""
+    out = []
+    for k, v in sorted(vars(t).items()):
+        if k in ("value", "lower_value"):
+            continue
+        if isinstance(v, (str, int, float, bool, type(None))):
+            out.append((k, v))
+        elif isinstance(v, (list, tuple)):
+            out.append((k, tuple(x if isinstance(x, (str, int, float, bool, type(None))) else type(x).__name__ for x in v)))
+        else:
+            out.append((k, type(v).__name__))
+    return tuple(out)
+
+
 def tok_state(oFile):
-    return [(type(t), t.value, t.indent, t.hierarchy, tuple(t.code_tags) if isinstance(t.code_tags, list) else t.code_tags) for t in oFile.lAllObjects]
+    return [(type(t), t.value, t.indent, t.hierarchy, _attr_state(t)) for t in oFile.lAllObjects]
 
 
 def state_equal(a, b):
